@@ -29,6 +29,7 @@ func runC15(c *Ctx) {
 	L.Rule("frame", "the only writes into memory reachable from the receiver are element stores into row residues ([]uint8): names, row order, row count and cached length are not written")
 
 	c.checkFlagsNotRewritten("option-not-rewritten")
+	c.checkMappedCoordinatesUsed("converted-coordinates-used")
 	mask := c.fn("align", "*align", "Mask")
 	occ := c.fn("align", "*align", "MaskOccurences")
 
